@@ -74,7 +74,9 @@ def truncI (q : Rat) : Int := if 0 ≤ q then q.floor else -((-q).floor)
 structure ExportPlan where
   canvas : Nat × Nat
   scale : Rat × Rat
-  offset : Int × Int
+  /-- where the origin of the object's box lands in the image (exact: since fix b316a01 the object is rendered
+      in place; before, a separately rendered image was pasted at this position truncated to whole pixels) -/
+  offset : Rat × Rat
   deriving DecidableEq, Repr
 
 /-- `render_svg`, export branch: the size options apply to the exported area — the object, or the page
@@ -87,7 +89,7 @@ def exportPlan (r : Rat → Rat) (f : FitTo) (page : Nat × Nat) (bx by_ bw bh :
   | some size =>
     let sc := fitToScale r f area
     some { canvas := size, scale := sc,
-           offset := if areaPage then (truncI (r (bx * sc.1)), truncI (r (by_ * sc.2))) else (0, 0) }
+           offset := if areaPage then (r (bx * sc.1), r (by_ * sc.2)) else (0, 0) }
 
 /-- the export branch before fix 082ba5b: the canvas is fitted to the object, the scale to the page, and
     with `--export-area-page` the object is placed at its *unscaled* offset -/
@@ -100,11 +102,12 @@ def exportPlanOld (r : Rat → Rat) (f : FitTo) (page : Nat × Nat) (bx by_ bw b
     if areaPage then
       match fitToSize r f page with
       | none => none
-      | some size => some { canvas := size, scale := sc, offset := (truncI bx, truncI by_) }
+      | some size => some { canvas := size, scale := sc, offset := ((truncI bx : Int), (truncI by_ : Int)) }
     else some { canvas := nodeSize, scale := sc, offset := (0, 0) }
 
-/-- the pixel box the object's box covers in the written image: `offset + [0, bw·sx] × [0, bh·sy]` -/
+/-- the pixel box the object's box touches in the written image: `offset + [0, bw·sx] × [0, bh·sy]`, rounded
+    outwards -/
 def ExportPlan.painted (p : ExportPlan) (bw bh : Rat) : Int × Int × Int × Int :=
-  (p.offset.1, p.offset.2, p.offset.1 + ceilI (bw * p.scale.1), p.offset.2 + ceilI (bh * p.scale.2))
+  (p.offset.1.floor, p.offset.2.floor, ceilI (p.offset.1 + bw * p.scale.1), ceilI (p.offset.2 + bh * p.scale.2))
 
 end Resvg.Cli
